@@ -3,7 +3,9 @@
    generator language of Lemmas/GenDSL.v; tie: source fingerprints + the draw-replay correspondence of tools/props/c09.py
    (the implementation's recorded random draws are fed to this very program and the streams compared). *)
 From Coq Require Import QArith Bool List.
-From PP Require Import Prelude.Base Prelude.Val Prelude.Pred Prelude.Sem Lemmas.GenDSL Lemmas.GenModel Lemmas.GenSafe.
+From PP Require Import Prelude.Base Prelude.Val Prelude.Pred Prelude.Sem Lemmas.GenDSL Lemmas.GenModel Lemmas.GenSafe Lemmas.TupleOf
+                       Lemmas.GenProd Lemmas.GenTupleOf Lemmas.GenExamples Lemmas.DictOf Lemmas.GenDictOf
+                       Lemmas.GenDictExamples.
 Import ListNotations.
 
 (* For every float environment satisfying the four IEEE facts of `fenv_ok` (v < nextafter(v,+inf), nextafter(v,-inf) < v,
@@ -27,3 +29,58 @@ Proof.
   split; intros; apply run_safe; [apply random_ints_safe|apply random_floats_safe; [assumption|]]; auto.
 Qed.
 Print Assumptions C09_int_and_float_helpers_stay_within_their_bounds.
+
+(* is_tuple_of_p(p1, ..., pn) (not a constructor of `pred`: its own program gen_tuple_of = zip of the component streams, whose
+   draws interleave): every tuple yielded, for every oracle and at every position, has exactly one component per predicate
+   and each component satisfies ITS OWN predicate (tuple_of_call is Lemmas/TupleOf.v's model of TupleOfPredicate.__call__) *)
+Theorem C09_tuple_of_values_satisfy :
+  forall fe W ck ps, fenv_ok fe -> world_ok W -> Forall (gen_ok W ck) ps ->
+  forall fuel o c, Forall (fun v => tuple_of_call W ps v = Some true) (fst (run fuel (gen_tuple_of fe W ck ps) o c)).
+Proof. exact gen_tuple_of_safe. Qed.
+Print Assumptions C09_tuple_of_values_satisfy.
+Theorem C09_tuple_of_components_in_order :
+  forall fe W ck ps, fenv_ok fe -> world_ok W -> Forall (gen_ok W ck) ps ->
+  forall fuel o c v, In v (fst (run fuel (gen_tuple_of fe W ck ps) o c)) ->
+  exists k items, v = VColl k items /\ List.length items = List.length ps /\ Forall2 (fun p x => ev W p x = Some true) ps items.
+Proof. exact gen_tuple_of_components. Qed.
+Print Assumptions C09_tuple_of_components_in_order.
+
+(* is_dict_of_p((k1, v1), ..., (kn, vn)) (its own program gen_dict_of: the 2n component streams zipped, each round turned
+   into a dict; meaning = Lemmas/DictOf.v's model of DictOfPredicate.__call__ on the dict's items).
+   PARTIAL, and named so: the full statement ("every yielded dict satisfies the predicate", for all entries) is FALSE of
+   the faithful model - Refuted/DictOfFinding.v, known finding 12: the entries are generated independently, so a key meant
+   for one entry may also satisfy another entry's key predicate while its value does not satisfy that entry's value
+   predicate.  What is proved: under `Compat` (a key meant for one entry is rejected, without an exception, by every other
+   entry's key predicate, and differs from the keys meant for the other entries - e.g. distinct literal keys) every dict
+   yielded, for every oracle and at every position, satisfies the predicate. *)
+Theorem C09_dict_of_values_satisfy_partial :
+  forall fe W ck kvs, fenv_ok fe -> world_ok W ->
+  Forall (fun kv => gen_ok W ck (fst kv) /\ gen_ok W ck (snd kv)) kvs -> Compat W kvs ->
+  forall fuel o c, Forall (fun v => exists d, v = venc_dict d /\ dict_of_items W kvs d = Some true)
+                          (fst (run fuel (gen_dict_of fe W ck kvs) o c)).
+Proof. exact gen_dict_of_safe. Qed.
+Print Assumptions C09_dict_of_values_satisfy_partial.
+(* what "satisfies" means there: an empty dict only for no entries; every item accepted by some entry; no entry
+   contradicted by any item *)
+Theorem C09_dict_of_meaning :
+  forall W kvs items, dict_of_items W kvs items = Some true <->
+    (items = [] -> kvs = []) /\
+    Forall (fun it => any_of (fun kv => kv_and W kv it) kvs = Some true) items /\
+    Forall (fun kv => Forall (fun it => kv_viol W kv it = Some false) items) kvs.
+Proof. exact dict_of_true. Qed.
+Print Assumptions C09_dict_of_meaning.
+Theorem C09_dict_of_hypotheses_nonvacuous :
+  fenv_ok fe1 /\ world_ok W1 /\ Forall (fun kv => gen_ok W1 KInt (fst kv) /\ gen_ok W1 KInt (snd kv)) kvs_ok /\ Compat W1 kvs_ok /\
+  fst (run 80 (gen_dict_of fe1 W1 KInt kvs_ok) o1 0) <> [].
+Proof. exact dict_of_hypotheses_nonvacuous. Qed.
+Print Assumptions C09_dict_of_hypotheses_nonvacuous.
+
+(* the hypotheses above are satisfiable, and the streams they speak about are not empty *)
+Theorem C09_hypotheses_nonvacuous :
+  fenv_ok fe1 /\ world_ok W1 /\ gen_ok W1 KInt ex_true /\ gen_ok_false W1 KInt (PGe 3) /\ Forall (gen_ok W1 KInt) ex_tuple /\
+  fst (run 60 (gen_true fe1 W1 KInt ex_true) o1 0) <> [] /\
+  fst (run 60 (gen_false fe1 W1 KInt (PGe 3)) o1 0) <> [] /\
+  fst (run 60 (gen_tuple_of fe1 W1 KInt ex_tuple) o1 0) <> [] /\
+  ex_tuple <> [] /\ Forall (fun p => prod_true KInt p = true) ex_tuple.
+Proof. exact generator_hypotheses_nonvacuous. Qed.
+Print Assumptions C09_hypotheses_nonvacuous.
